@@ -293,6 +293,7 @@ func engIndex(e *Env) {
 	}
 	// SCase = QCase compared as a set of document numbers
 	compositeSweep(e, ctx, x, r)
+	singleFieldSweep(e, ctx, x)
 	writeQueryCases(e, qcases, nil)
 	sort.Strings(e.Res.Notes)
 }
@@ -353,6 +354,69 @@ func compositeSweep(e *Env, ctx context.Context, x *Nd, r *Rng) {
 					e.distinct(fmt.Sprintf("composite|%s|%s|%s|%s", kd.gql, dir, op, bound))
 					if a != b || ea != eb {
 						e.violate("index-composite-second-field", fmt.Sprintf("composite index (cat, v:%s %s), filter cat = x and v %s %s: indexed collection returns k=%s %s, plain collection k=%s %s", kd.gql, dir, op, bound, b, eb, a, ea), map[string]any{"kind": kd.gql, "direction": dir, "op": op, "bound": bound})
+					}
+				}
+			}
+		}
+	}
+}
+
+// singleFieldSweep: for every field kind under a single-field ASC / DESC index: every comparison operator with bounds
+// taken from the stored values (ties, values that differ only in the last digits / fraction), and both orders: the
+// indexed twin must return the documents of the plain twin, and in the same sort-key sequence.
+func singleFieldSweep(e *Env, ctx context.Context, x *Nd) {
+	type kind struct {
+		gql  string
+		pool []string
+	}
+	kinds := []kind{
+		{"DateTime", []string{`"2020-01-02T00:00:00Z"`, `"2020-01-02T00:00:00.3Z"`, `"2020-01-02T00:00:00.5Z"`, `"2020-01-02T00:00:01Z"`, `"2019-12-31T23:59:59.999Z"`}},
+		{"Int", []string{"-3", "0", "1", "255", "256", "-256"}},
+		{"Float", []string{"-1.5", "0.0", "0.25", "0.2500001", "9.75"}},
+		{"String", []string{`"a"`, `"ab"`, `"b"`, `""`, `"a\u0000"`}},
+	}
+	for ki, kd := range kinds {
+		for _, dir := range []string{"ASC", "DESC"} {
+			p, xn := fmt.Sprintf("SP%d%s", ki, dir), fmt.Sprintf("SX%d%s", ki, dir)
+			x.addSchema(ctx, fmt.Sprintf(`type %s { k: Int v: %s }`, p, kd.gql))
+			x.addSchema(ctx, fmt.Sprintf(`type %s { k: Int v: %s @index(direction: %s) }`, xn, kd.gql, dir))
+			for k, v := range append(append([]string{}, kd.pool...), "null", kd.pool[1]) {
+				for _, col := range []string{p, xn} {
+					if _, errs := x.gql(ctx, fmt.Sprintf(`mutation { create_%s(input: {k: %d, v: %s}) { _docID } }`, col, k, v)); errs != "" {
+						e.violate("harness-index", errs, nil)
+					}
+				}
+			}
+			get := func(col, args string) (string, string, string) {
+				d, errs := x.gql(ctx, fmt.Sprintf(`query { %s%s { k v } }`, col, args))
+				var ks []int
+				var seq []string
+				for _, row := range rowsOf(d, col) {
+					n, _ := numOf(row["k"])
+					ks = append(ks, int(n))
+					seq = append(seq, fmt.Sprint(row["v"]))
+				}
+				sort.Ints(ks)
+				return fmt.Sprint(ks), strings.Join(seq, ","), errs
+			}
+			for _, op := range []string{"_eq", "_ne", "_gt", "_ge", "_lt", "_le"} {
+				for _, bound := range kd.pool {
+					for _, ord := range []string{"", "ASC", "DESC"} {
+						args := fmt.Sprintf(`(filter: {v: {%s: %s}}`, op, bound)
+						if ord != "" {
+							args += fmt.Sprintf(`, order: {v: %s}`, ord)
+						}
+						args += ")"
+						ka, sa, ea := get(p, args)
+						kb, sb, eb := get(xn, args)
+						e.Res.Evaluations++
+						e.count("single_field_" + kd.gql)
+						e.distinct(fmt.Sprintf("single|%s|%s|%s|%s|%s", kd.gql, dir, op, bound, ord))
+						if ka != kb || ea != eb {
+							e.violate("index-single-field", fmt.Sprintf("index on v:%s %s, %s: indexed collection returns k=%s %s, plain collection k=%s %s", kd.gql, dir, args, kb, eb, ka, ea), map[string]any{"kind": kd.gql, "direction": dir, "args": args})
+						} else if ord != "" && sa != sb {
+							e.violate("index-order", fmt.Sprintf("index on v:%s %s, %s: indexed collection yields the values in the order [%s], plain collection [%s]", kd.gql, dir, args, sb, sa), map[string]any{"kind": kd.gql, "direction": dir, "args": args})
+						}
 					}
 				}
 			}
